@@ -40,6 +40,8 @@ fn substitute(
                     }
                     let offset =
                         *journaled_sp - (*journaled_sp & bitmask.clone().try_to_i64().unwrap());
+                    // The substituted subtraction also changes the journaled stack pointer offset.
+                    *journaled_sp -= offset;
                     let sp = sp.clone();
                     *op = BinOpType::IntSub;
 
